@@ -7,6 +7,7 @@ import (
 	"os"
 	"sort"
 	"strconv"
+	"strings"
 
 	"vh/recgen"
 	"vh/recmap"
@@ -102,7 +103,7 @@ func cmdWireCases(args []string) error {
 			ev = map[string]interface{}{"ev": "small", "panics": panics, "msg": msg}
 		case "err":
 			ev = recwire.ErrorRoundTrip(c)
-		case "txn-direct", "txn-server":
+		case "txn-direct", "txn-server", "mon-monitor", "mon-monitor_cond", "mon-monitor_cond_since":
 			if runner == nil {
 				dir, err := os.MkdirTemp("", "vh-sock")
 				if err != nil {
@@ -120,8 +121,14 @@ func cmdWireCases(args []string) error {
 			}
 			if c.Mode == "txn-direct" {
 				ev = runner.Direct(c.Tree)
+			} else if strings.HasPrefix(c.Mode, "mon-") {
+				w.Flush()
+				_ = os.WriteFile(*out+".current", []byte(strconv.Itoa(id)), 0o644)
+				ev = runner.Monitor(c.Tree, strings.TrimPrefix(c.Mode, "mon-"))
+				w.Flush()
 			} else {
 				// a panic in the server's connection goroutine ends this process: say which case is running
+				w.Flush()
 				_ = os.WriteFile(*out+".current", []byte(strconv.Itoa(id)), 0o644)
 				ev = runner.Server(c.Tree)
 			}
@@ -133,7 +140,7 @@ func cmdWireCases(args []string) error {
 		if err := rec.Emit(ev); err != nil {
 			return err
 		}
-		if c.Mode == "txn-server" {
+		if c.Mode == "txn-server" || strings.HasPrefix(c.Mode, "mon-") {
 			w.Flush()
 		}
 	}
